@@ -34,7 +34,7 @@ ASSUMPTIONS = ["disallow_adjacent offset lists are symmetric (closed under negat
                "chi-square alarms use a 1e-9 false-alarm bound; the exact (scripted-entropy) part has none"]
 REQUIRED = ["c19.generate_runs", "c19.returned_problem", "c19.returned_none", "c19.neighbours_judged", "c19.symmetry_judged", "c19.adjacency_judged",
             "c19.move_updates", "c19.purity_reverified", "c19.repro_compared", "c19.segmentation_runs", "c19.real_solver_runs",
-            "c19.prng_scripted", "c19.prng_rejected_words", "c19.prng_stat", "c19.pattern.nested", "c19.pattern.choice"]
+            "c19.prng_scripted", "c19.prng_rejected_words", "c19.prng_stat", "c19.pattern.nested", "c19.pattern.choice", "c19.cross_process_compared"]
 
 
 def plan(tier):
@@ -563,6 +563,66 @@ def prng_stat(ctx, rng):
         SR.use_deterministic_prng(False)
 
 
+def cross_process(ctx, rng, n):
+    """Same deterministic seed in fresh interpreters that differ in PYTHONHASHSEED and in Python's global random state: the
+    candidate sequence (every problem handed to the solver callback) and the result must be identical."""
+    import json
+    import os
+    import subprocess
+    import sys
+
+    home = os.environ.get("VERIF_HOME", "/verif")
+    for t in range(n):
+        h, w = rng.choice([(1, 4), (2, 2), (3, 3), (3, 4), (5, 3)])
+        choice = rng.choice([["..", "a", "b", "cc"], ["x", "y"], [0, 1, 2], [-1, 0, 1, 2, 3], ["..", "^1", "v2", "<3", ">0"]])
+        kw = {}
+        if rng.random() < 0.6:
+            kw["symmetry"] = True
+        if rng.random() < 0.3:
+            kw["disallow_adjacent"] = True
+        if rng.random() < 0.3:
+            kw["use_move"] = True
+        arr = {"kind": "array", "h": h, "w": w, "choice": choice, "kw": kw}
+        spec = rng.choice([arr, arr, {"kind": "choice", "choice": ["p", "q", "r"]},
+                           {"kind": "list", "items": [arr, {"kind": "choice", "choice": ["s", "t"]}]},
+                           {"kind": "tuple", "items": [{"kind": "seg", "h": 2, "w": 3, "kw": {}}, arr]}])
+        cfg = {"spec": spec, "seed": rng.randint(0, 63), "salt": rng.getrandbits(30), "sat_rate": rng.choice([0.6, 1.0]),
+               "uniq_rate": rng.choice([0.0, 0.05]), "max_steps": rng.choice([10, 40])}
+        ctx.current_case = {"cross_process": cfg}
+        outs = []
+        for k, hs in enumerate(["0", "1", str(rng.randint(2, 4000000)), "random"]):
+            env = dict(os.environ, PYTHONHASHSEED=hs)
+            try:
+                r = subprocess.run([sys.executable, os.path.join(home, "vf", "workloads", "gen_child.py"), json.dumps(dict(cfg, pyseed=k))],
+                                   env=env, capture_output=True, text=True, timeout=120)
+            except subprocess.TimeoutExpired:
+                ctx.inconc("generation child timed out", ctx.current_case)
+                outs = None
+                break
+            line = next((x for x in r.stdout.splitlines() if x.startswith("GEN ")), None)
+            if line is None:
+                ctx.inconc("generation child produced no observation", {"cfg": cfg, "stderr": r.stderr[-300:]})
+                outs = None
+                break
+            outs.append(json.loads(line[4:]))
+        if not outs:
+            continue
+        ctx.case(["xproc", cfg], nontrivial=len(outs[0]["calls"]) > 1)
+        ctx.count("c19.cross_process_compared")
+        if any("error" in o for o in outs):
+            if not all(o.get("error") == outs[0].get("error") for o in outs):
+                ctx.violation("reproducibility:cross-process:error", f"children disagree on raising: {[o.get('error') for o in outs]}", ctx.current_case)
+            continue
+        a = outs[0]
+        for k, b in enumerate(outs[1:], 1):
+            if a["calls"] != b["calls"] or a["result"] != b["result"]:
+                first = next((i for i, (x, y) in enumerate(zip(a["calls"], b["calls"])) if x != y), min(len(a["calls"]), len(b["calls"])))
+                ctx.violation("reproducibility:cross-process", f"same deterministic seed, interpreters with different PYTHONHASHSEED / global random "
+                              f"state: candidate sequences diverge at solver call {first} (lengths {len(a['calls'])}/{len(b['calls'])}), "
+                              f"results equal: {a['result'] == b['result']}", ctx.current_case)
+                break
+
+
 def run(ctx):
     rng = ctx.rng
     install_draw_recorders()
@@ -577,6 +637,7 @@ def run(ctx):
     prng_scripted(ctx, rng)
     prng_stat(ctx, rng)
     mseg.uninstall()
+    cross_process(ctx, rng, 3 if not thorough else 40)
 
 
 def replay(w, ctx):
